@@ -11,10 +11,11 @@
 EXTENDS Naturals, Sequences, FiniteSets, TLC, Json
 
 Bases == {"standalone", "references-sibling", "reexported-by-init", "unanalysed-names"}
-Perturbs == {"add-plain", "add-same-names", "rename-unrelated", "change-unrelated", "remove-unrelated", "permute-own"}
+Perturbs == {"add-plain", "add-same-names", "rename-unrelated", "change-unrelated", "remove-unrelated", "permute-own",
+             "reexport-unrelated-same-name"}     \* an unrelated module reuses M's names and the root __init__ re-exports one of *its* classes
 
 (* abstract package: module name -> content version; M is the module under observation, N a module M references, U unrelated *)
-BasePkg(b) == [M |-> 1, N |-> IF b = "references-sibling" THEN 1 ELSE 0, I |-> IF b = "reexported-by-init" THEN 1 ELSE 0, U |-> 0, U2 |-> 0, order |-> 1]
+BasePkg(b) == [M |-> 1, N |-> IF b = "references-sibling" THEN 1 ELSE 0, I |-> IF b = "reexported-by-init" THEN 1 ELSE 0, U |-> 0, U2 |-> 0, RI |-> 0, order |-> 1]
 WithU(p) == [p EXCEPT !.U = 1]
 Apply(p, k) ==
   CASE k = "add-plain" -> [p EXCEPT !.U = 1]
@@ -23,6 +24,7 @@ Apply(p, k) ==
     [] k = "change-unrelated" -> [p EXCEPT !.U = 2]
     [] k = "remove-unrelated" -> [p EXCEPT !.U = 0]
     [] k = "permute-own" -> [p EXCEPT !.order = 2]
+    [] k = "reexport-unrelated-same-name" -> [p EXCEPT !.U = 3, !.RI = 1]   \* RI: the root __init__ re-exports a class of U (not of M, not of N)
 StartOf(b, k) == IF k \in {"rename-unrelated", "change-unrelated", "remove-unrelated"} THEN WithU(BasePkg(b)) ELSE BasePkg(b)
 Deps(p) == <<p.M, p.N, p.I>>                       \* what M's stub may depend on
 StubOf(p) == [deps |-> Deps(p), order |-> p.order]  \* the design: a function of Deps and of M's own declaration order
